@@ -2695,14 +2695,22 @@ impl Translator {
                 }
             }
             PatKind::Variant(_prefixes, tag, inner) => match inner {
+                // a single void payload is never compared (see translate_pat_comparison),
+                // so or-patterns inside it are never decided
                 Some(PatVariantData::Positional(inner)) => {
-                    let pat_ty = self.get_ty(mono, pat.node()).unwrap();
-                    if pat_ty != SolvedType::Void {
+                    let inner_ty = self.get_ty(mono, inner.node()).unwrap();
+                    if inner_ty != SolvedType::Void {
                         self.traverse_arm_pat(inner, mono, or_pat_decisions, went_left);
                     }
                 }
                 Some(PatVariantData::Named(named)) => {
-                    for pat in self.variant_named_pats_in_order(tag, named) {
+                    let pats = self.variant_named_pats_in_order(tag, named);
+                    if pats.len() == 1
+                        && self.get_ty(mono, pats[0].node()).unwrap() == SolvedType::Void
+                    {
+                        return;
+                    }
+                    for pat in pats {
                         self.traverse_arm_pat(&pat, mono, or_pat_decisions, went_left);
                     }
                 }
@@ -2770,9 +2778,9 @@ impl Translator {
                 };
                 match inner {
                     Some(PatVariantData::Positional(inner)) => {
-                        let pat_ty = self.get_ty(mono, pat.node()).unwrap();
+                        let inner_ty = self.get_ty(mono, inner.node()).unwrap();
 
-                        if pat_ty != SolvedType::Void {
+                        if inner_ty != SolvedType::Void {
                             // unpack tag and associated data
                             self.emit(st, Instr::DeconstructVariant);
                             // pop tag
@@ -2783,11 +2791,17 @@ impl Translator {
                         }
                     }
                     Some(PatVariantData::Named(named)) => {
+                        let pats = self.variant_named_pats_in_order(tag, named);
+                        if pats.len() == 1
+                            && self.get_ty(mono, pats[0].node()).unwrap() == SolvedType::Void
+                        {
+                            void_case();
+                            return;
+                        }
                         // unpack tag and associated data
                         self.emit(st, Instr::DeconstructVariant);
                         // pop tag
                         self.emit(st, Instr::Pop);
-                        let pats = self.variant_named_pats_in_order(tag, named);
                         if pats.len() == 1 {
                             self.handle_pat_binding(&pats[0], locals, st, mono, or_pat_decisions);
                         } else {
